@@ -1,7 +1,7 @@
 /-!
 # Model of the plasTeX DOM child-list editing (plasTeX/DOM/__init__.py), as written
 
-A heap of nodes (`kids`, `parent`, `owner`, `kind`, `text`, `name`, `attr`), every operation transcribed
+A heap of nodes (`kids`, `parent`, `owner`, `kind`, `text`, `name`, `attr`, `attr2`), every operation transcribed
 from the Python method of the same name: `Node.append`, `insert`, `pop`, `removeChild`, `insertBefore`,
 `insertAfter`, `replaceChild`, `__setitem__`, `extend`, `appendText`, `normalize`, `cloneNode`,
 `CharacterData.cloneNode`, `NamedNodeMap.__setitem__/_resetPosition` (only the key `self` holding a
@@ -37,6 +37,7 @@ structure Heap where
   text : Id → List Nat         -- characters of a text node (code points)
   name : Id → Nat              -- `nodeName` of an element (index into a small alphabet)
   attr : Id → Option Id        -- the fragment stored as `attributes['self']` (then `childNodes` *is* that fragment)
+  attr2 : Id → Option Id       -- a fragment stored under another attribute key (`attributes['title']`): not the child list
   next : Id                    -- allocation counter
 
 def upd {α} (f : Id → α) (i : Id) (v : α) : Id → α := fun j => if j = i then v else f j
@@ -45,14 +46,14 @@ def upd {α} (f : Id → α) (i : Id) (v : α) : Id → α := fun j => if j = i 
 def init : Heap :=
   { kids := fun _ => [], parent := fun _ => none, owner := fun _ => some 0,
     kind := fun i => if i = 0 then .doc else .elem, text := fun _ => [], name := fun _ => 0,
-    attr := fun _ => none, next := 1 }
+    attr := fun _ => none, attr2 := fun _ => none, next := 1 }
 
 /-- `createElement / createTextNode / createDocumentFragment` -/
 def create (h : Heap) (d : Id) (k : Kind) (nm : Nat) (tx : List Nat) : Heap × Id :=
   let v := h.next
   ({ h with next := v + 1, kids := upd h.kids v [], parent := upd h.parent v none,
             owner := upd h.owner v (some d), kind := upd h.kind v k, text := upd h.text v tx,
-            name := upd h.name v nm, attr := upd h.attr v none }, v)
+            name := upd h.name v nm, attr := upd h.attr v none, attr2 := upd h.attr2 v none }, v)
 
 /-! ## Python list primitives -/
 
@@ -195,6 +196,12 @@ def setSelfAttr (h : Heap) (e f : Id) : Heap :=
   let h1 := (h.kids f).foldl (fun a it => { a with parent := upd a.parent it (some f), owner := upd a.owner it (a.owner e) }) h
   { h1 with attr := upd h1.attr e (some f) }
 
+/-- `NamedNodeMap.__setitem__('title', f)` for a fragment `f`: an attribute-held fragment that is *not* the child
+    list; `_resetPosition` gives the items the fragment as parent and the element's document. -/
+def setAttr2 (h : Heap) (e f : Id) : Heap :=
+  let h1 := (h.kids f).foldl (fun a it => { a with parent := upd a.parent it (some f), owner := upd a.owner it (a.owner e) }) h
+  { h1 with attr2 := upd h1.attr2 e (some f) }
+
 /-! ## normalize -/
 
 /-- `Node.appendText(text)` (no character substitutions) -/
@@ -209,9 +216,13 @@ def normalize : Nat → Heap → Id → Heap
   | 0, h, _ => h
   | fuel + 1, h, s =>
     if h.kind s = .text then h else
-    let h0 := match h.attr s with
+    -- `for key, value in self.attributes.items(): if isinstance(value, Node): value.normalize()`
+    let h00 := match h.attr s with
       | some f => normalize fuel h f
       | none => h
+    let h0 := match h00.attr2 s with
+      | some f => normalize fuel h00 f
+      | none => h00
     let nodes := childList h0 s
     -- `while self.childNodes: self.pop()`
     let h1 := { h0 with kids := upd h0.kids (cn h0 s) [],
@@ -243,6 +254,10 @@ def clone : Nat → Heap → Id → Bool → Heap × Id
         let hf := { hf with parent := upd hf.parent f' none, owner := upd hf.owner f' (h.owner f) }
         setSelfAttr hf v f'
       | none => h2
+    -- other Node-valued attributes are stored in the clone as they are (the very same fragment)
+    let h3 := match h.attr2 s with
+      | some f2 => setAttr2 h3 v f2
+      | none => h3
     if deep then
       ((childList h3 s).foldl (fun (a : Heap) x =>
           let (a1, cx) := clone fuel a x true
@@ -295,6 +310,10 @@ def getElementsByTagName : Nat → Heap → Id → Nat → List Id
   | 0, _, _, _ => []
   | fuel + 1, h, n, tag =>
     if h.kind n = .text then [] else
+    -- "look in attributes dictionary for document fragments as well" (not the one that is the child list)
+    (match h.attr2 n with
+      | some f => getElementsByTagName fuel h f tag
+      | none => []) ++
     (childList h n).flatMap (fun c =>
       (if h.kind c = .elem ∧ h.name c = tag then [c] else []) ++ getElementsByTagName fuel h c tag)
 
@@ -309,6 +328,26 @@ def getElementsByTagNameAsIs : Nat → Heap → Id → Nat → List Id
       | none => []) ++
     (childList h n).flatMap (fun c =>
       (if h.kind c = .elem ∧ h.name c = tag then [c] else []) ++ getElementsByTagNameAsIs fuel h c tag)
+
+/-- `Node.__eq__` / `isEqualNode` (text nodes compare as strings): same `nodeName`, equal `attributes` (the
+    fragments held under `self` and `title`), equal child lists -/
+def eqNode : Nat → Heap → Id → Id → Bool
+  | 0, _, a, b => a == b
+  | fuel + 1, h, a, b =>
+    if h.kind a = .text ∨ h.kind b = .text then
+      h.kind a = .text && h.kind b = .text && h.text a == h.text b
+    else
+      let eqOpt : Option Id → Option Id → Bool := fun x y => match x, y with
+        | none, none => true
+        | some f, some g => f == g || eqNode fuel h f g
+        | _, _ => false
+      let rec eqList : List Id → List Id → Bool
+        | [], [] => true
+        | x :: xs, y :: ys => (x == y || eqNode fuel h x y) && eqList xs ys
+        | _, _ => false
+      h.kind a == h.kind b && (h.kind a != .elem || h.name a == h.name b) &&
+      eqOpt (h.attr a) (h.attr b) && eqOpt (h.attr2 a) (h.attr2 b) &&
+      eqList (childList h a) (childList h b)
 
 /-- `parent = self; while parent is not None: …` : the chain from `n` upwards, or `inl` when `stop` is met -/
 def chainUp : Nat → Heap → Id → Id → List Id → Option (List Id)
